@@ -207,6 +207,19 @@ def run(ctx):
                     ctx.violation("rejected-valid-graph", "%s order %s: valid import graph rejected: %s" % (desc, ordered, cli.clean(p.stderr)[:300]), case); ok = False
                 else:
                     want = sorted("P%d" % i for i in exp[1])
+                    indeg = {}
+                    for u, vs in adj.items():
+                        for v in set(vs):
+                            if u in exp[1]:
+                                indeg[v] = indeg.get(v, 0) + 1
+                    if any(c >= 2 for c in indeg.values()) and (n <= 3 or gi % 7 == 0):
+                        # a package reached through two importers: every importer must be able to use its types in the generated code
+                        pyd = os.path.join(base, "out", "py")
+                        pr = common.run([common.PY, "-c", "import sys; sys.path.insert(0, %r); import p0" % pyd], cpu_s=60)
+                        ctx.ev()
+                        ctx.count("python-import-checked")
+                        if pr.rc != 0:
+                            ctx.violation("python-import-failed:shared-import", "%s order %s: the generated Python package does not import: %s" % (desc, ordered, pr.stderr[-300:]), case); ok = False
                     if sorted(parsed) != want:
                         ctx.violation("load-count", "%s order %s: namespaces parsed %s, expected each of %s exactly once" % (desc, ordered, sorted(parsed), want), case); ok = False
         first = results[0]
